@@ -25,7 +25,7 @@ pub fn asset_paths() -> Vec<String> {
 
 fn write_pkg(p: &Package) -> Vec<u8> {
     let mut out = vec![];
-    p.write(&mut out).expect("write to Vec");
+    p.write(&mut Plain(&mut out)).expect("write to Vec");
     out
 }
 
@@ -115,6 +115,30 @@ pub fn mutate(rng: &mut Rng, src: &[u8]) -> (Vec<u8>, String) {
             desc = format!("swap entries {i} {j}");
         }
         (_, Some(l)) => {
+            // bytes behind the declared end: trailing garbage, or a second package in the same stream
+            if rng.chance(1, 2) {
+                if rng.chance(1, 3) {
+                    b.extend_from_slice(src);
+                    return (b, "whole package appended".into());
+                }
+                let n = 1 + rng.below(40) as usize;
+                for _ in 0..n {
+                    b.push(rng.below(256) as u8);
+                }
+                return (b, format!("{n} trailing bytes"));
+            }
+            if rng.chance(1, 4) {
+                // the signature header's SIZE tag (header + payload length) understated / overstated
+                if let Some(e) = l.sig.find(1000) {
+                    let p = l.sig.store_at + e.offset as usize;
+                    if p + 4 <= b.len() && e.typ == 4 {
+                        let cur = u32::from_be_bytes([b[p], b[p + 1], b[p + 2], b[p + 3]]);
+                        let newv = *rng.pick(&[cur / 2, cur.saturating_sub(1), cur + 1, 0, l.hdr.len() as u32, u32::MAX]);
+                        b[p..p + 4].copy_from_slice(&newv.to_be_bytes());
+                        return (b, format!("sig SIZE {cur} -> {newv}"));
+                    }
+                }
+            }
             // truncate or extend the payload
             let keep = rng.below((b.len() - l.payload_at) as u64 + 1) as usize;
             b.truncate(l.payload_at + keep);
